@@ -204,11 +204,15 @@ def run(tier):
         for msg in captured:
             key = "%s.%s" % (type(msg).__module__.replace("pydcop.", ""), type(msg).__name__)
             seen_types[key] += 1
-            if hasattr(msg, "address") and not isinstance(msg.address, (tuple, list, str, type(None))):
-                # in-process addresses are the transport objects themselves; over HTTP an address is (ip, port)
+            def _plain(a):
+                return isinstance(a, (str, int, type(None))) or (isinstance(a, (tuple, list)) and all(_plain(x) for x in a))
+            if hasattr(msg, "address") and not _plain(msg.address):
+                # in-process addresses are the transport objects themselves (also inside a list of addresses); over HTTP an
+                # address is (ip, port): the object is replaced by such a pair before the message goes through the wire
                 import copy
                 msg = copy.copy(msg)
-                msg.address = ("127.0.0.1", 9001) if not isinstance(msg.address, list) else [("127.0.0.1", 9001)] * len(msg.address)
+                msg.address = [("127.0.0.1", 9001 + i) if not _plain(a) else a for i, a in enumerate(msg.address)] \
+                    if isinstance(msg.address, list) else ("127.0.0.1", 9001)
             if per_type[(key, "infra")] < (3 if quick else 10):
                 per_type[(key, "infra")] += 1
                 add("message:" + key, msg, shape=inst["shape"], algo="infrastructure", inst=inst)
